@@ -259,6 +259,12 @@ func (e *Engine) keyFam(v ssa.Value, out map[string]bool, seen map[ssa.Value]boo
 				// field of a struct holding a key/prefix: not resolved
 				_ = fa
 			}
+			if ia, ok := x.X.(*ssa.IndexAddr); ok {
+				// an element of a slice / array of keys or prefixes (keys collected from an iterator, a list of prefixes
+				// ranged over): the union over what was put into it
+				e.elemFam(ia.X, out, seen, depth+1, ctx)
+				return
+			}
 		}
 	case *ssa.Global:
 		if gv, ok := x.Object().(*types.Var); ok {
@@ -450,4 +456,55 @@ func isEmptyBuffer(v ssa.Value) bool {
 		return isEmptyBuffer(x.X)
 	}
 	return false
+}
+
+// elemFam: families of the elements of a slice / array value (built by composite literal, append, re-slicing, phis).
+func (e *Engine) elemFam(v ssa.Value, out map[string]bool, seen map[ssa.Value]bool, depth int, ctx *callCtx) {
+	if v == nil || depth > 12 {
+		return
+	}
+	key := v
+	if seen[key] {
+		return
+	}
+	seen[key] = true
+	switch x := v.(type) {
+	case *ssa.Phi:
+		for _, ed := range x.Edges {
+			e.elemFam(ed, out, seen, depth+1, ctx)
+		}
+	case *ssa.Slice:
+		e.elemFam(x.X, out, seen, depth+1, ctx)
+	case *ssa.Convert:
+		e.elemFam(x.X, out, seen, depth+1, ctx)
+	case *ssa.ChangeType:
+		e.elemFam(x.X, out, seen, depth+1, ctx)
+	case *ssa.UnOp:
+		if x.Op == token.MUL {
+			if a, ok := x.X.(*ssa.Alloc); ok {
+				for _, r := range *a.Referrers() {
+					if st, ok := r.(*ssa.Store); ok && st.Addr == ssa.Value(a) {
+						e.elemFam(st.Val, out, seen, depth+1, ctx)
+					}
+				}
+			}
+		}
+	case *ssa.Alloc:
+		// new [N]T backing a composite literal or a varargs slice: stores into its elements
+		for _, r := range *x.Referrers() {
+			if ia, ok := r.(*ssa.IndexAddr); ok && ia.X == ssa.Value(x) {
+				for _, r2 := range *ia.Referrers() {
+					if st, ok := r2.(*ssa.Store); ok && st.Addr == ssa.Value(ia) {
+						e.keyFam(st.Val, out, map[ssa.Value]bool{}, depth+1, ctx)
+					}
+				}
+			}
+		}
+	case *ssa.Call:
+		if b, ok := x.Call.Value.(*ssa.Builtin); ok && b.Name() == "append" {
+			for _, a := range x.Call.Args {
+				e.elemFam(a, out, seen, depth+1, ctx)
+			}
+		}
+	}
 }
